@@ -35,7 +35,7 @@ ASSUMPTIONS = ['lemma blocks have the shape the slicer documents: `${ $d/$e ... 
 SEEDS = list(range(8))
 FLOORS = {'quick': {'databases': 300, 'databases_with_nested_blocks': 100, 'databases_with_dv': 100, 'databases_with_e': 100,
                     'roundtrips_checked': 2400, 'slices_verified': 1000, 'slices_with_hyps': 100, 'slices_with_dv': 30, 'slices_using_earlier_lemma': 60,
-                    'shipped_databases': 10, 'roundtrip_only_databases_checked': 300, 'shipped_slices_verified': 500, 'databases_with:clash_token_is_variable': 20, 'databases_with:clash_token_is_constant': 20, **{f'seed_runs:{s}': 300 for s in SEEDS}}}
+                    'shipped_databases': 10, 'roundtrip_only_databases_checked': 200, 'shipped_slices_verified': 500, 'databases_with:clash_token_is_variable': 20, 'databases_with:clash_token_is_constant': 20, **{f'seed_runs:{s}': 300 for s in SEEDS}}}
 FLOORS['thorough'] = dict(FLOORS['quick'], databases=4000, slices_verified=12000, roundtrips_checked=32000)
 
 REPO = Path(os.environ.get('PI2_REPO', '/repo'))
@@ -288,6 +288,7 @@ def shard(ctx):
         wrapped = ('${ ' + dv + ' ' + hyp + ' ' + body + ' $}') if (dv or hyp or rng.random() < 0.3) else body
         text = ('$c #Pattern |- ( ) \\imp $.\n$v ' + ' '.join(nm) + ' $.\n' + ''.join(f'{v}-is-pattern $f #Pattern {v} $.\n' for v in nm) +
                 f'imp-is-pattern $a #Pattern ( \\imp {nm[0]} {nm[1]} ) $.\nax-a $a |- ( \\imp {nm[0]} {nm[0]} ) $.\nax-b $a |- ( \\imp {nm[1]} ( \\imp {nm[0]} {nm[1]} ) ) $.\n' +
+                rng.choice(['', '', '', '', '', '', '', '', f'odd $a |- ( {nm[2]} ) $.\n', 'odd2 $a |- ( \\imp ( ' + nm[0] + ' ) ' + nm[1] + ' ) $.\n']) +
                 wrapped + '\n' + rng.choice(['', 'stub $p |- ( \\imp ' + nm[2] + ' ' + nm[2] + ' ) $= $.\n', 'open $p |- ' + nm[1] + ' $= ? $.\n']))
         cases.append({'text': text, 'features': ['unusual_but_parseable', 'empty_proof' if ('$= $.' in text or '$=  $.' in text) else 'other'], 'kind': 'roundtrip_only', 'name': f'u{ctx.shard}.{t}'})
     # shipped databases: spread over the shards
